@@ -253,6 +253,7 @@ func runC07(b *mon.B) {
 				rc.c.EOF()
 			}
 			ref.Net.Forget(rc.c)
+			ref.Sink.Take() // accounting records are not judged here; do not let them pile up
 			if k%307 == 0 {
 				var names []string
 				for _, rc := range recs {
